@@ -21,7 +21,7 @@ def run(prop, tier, seed, t0, H):
             "a duplicate delivery or a restart; distinct by full command trace")
     if built and os.path.exists(C.DRV):
         n = 40 if tier == "quick" else 500
-        worlds = W.run_histories(seed, n, tier)
+        worlds = [w for pp in sorted(MODULES) for w in W.load_corpus(pp)] + W.run_histories(seed, n, tier)
         corr, compared = W.correspondence(worlds)
         ofails, stats = [], {"worlds": 0, "quiesced": 0, "live_clients": 0, "divergence": {}, "crashed": 0}
         for w in worlds:
